@@ -172,9 +172,15 @@ def func_locals(fn):
         names.add(fn.args.vararg.arg)
     if fn.args.kwarg:
         names.add(fn.args.kwarg.arg)
-    for n in ast.walk(fn):
+    def rec(n):
+        if isinstance(n, (ast.ListComp, ast.SetComp, ast.DictComp, ast.GeneratorExp, ast.Lambda)):
+            return          # comprehension / lambda variables are not function locals
         if isinstance(n, ast.Name) and isinstance(n.ctx, ast.Store):
             names.add(n.id)
+        for c in ast.iter_child_nodes(n):
+            rec(c)
+    for st in fn.body:
+        rec(st)
     names.discard("self")
     return names
 
@@ -457,7 +463,7 @@ class Walker:
             own = None
         env = None
         for k, v in s.env.items():
-            if k == own or (v is not None and isinstance(v, str) and pat.search(v) and (own is not None or v != tc)):
+            if k == own or (v is not None and isinstance(v, str) and pat.search(v)):
                 if env is None:
                     env = dict(s.env)
                 env[k] = None
